@@ -1165,5 +1165,8 @@ func (e *Env) loadedWF(v SVal) {
 		if st, ok := under(v.Ty).(*types.Slice); ok {
 			e.vc.assume(True, e.vc.arrayTyped(v.T, st))
 		}
+		if pt, ok := under(v.Ty).(*types.Pointer); ok {
+			e.vc.assume(True, e.vc.pointerTyped(v.T, pt))
+		}
 	}
 }
